@@ -394,7 +394,7 @@ def collect(ck, n):
             out[i] = r2
     crashed = [r for r in out if "crash" in r]
     if crashed:
-        ck.broke("impl-runner-crash", {k: crashed[0].get(k) for k in ("backend", "cli", "tree", "after", "ending", "crash")})
+        ck.runner_crash({k: crashed[0].get(k) for k in ("backend", "cli", "tree", "after", "ending")}, str(crashed[0]["crash"]))
     return [r for r in out if "crash" not in r]
 
 
